@@ -2,7 +2,7 @@
    Model: Model/FS.v - every ReadFile / FindWithPrefixAndSuffix / WriteFile call has a number; a fault
    schedule maps call numbers to faults (error without effect; for writes also error after a prefix was
    written); a file that does not exist is a read RESULT, not a fault. *)
-From Gopar Require Import Model.Base Model.CRC Model.GoPath Model.FS Model.Par2 Model.Par1 Proofs.Par2Facts Proofs.Par2Faults Proofs.Par1Safety Proofs.RerunFacts Proofs.HistoryFacts2 Proofs.Par2Verify.
+From Gopar Require Import Model.Base Model.CRC Model.GoPath Model.FS Model.Par2 Model.Par1 Proofs.Par2Facts Proofs.Par2Faults Proofs.Par1Safety Proofs.RerunFacts Proofs.HistoryFacts2 Proofs.Par2Verify Proofs.Par1Faults.
 Open Scope N_scope.
 
 (* REPORTED: an operation that returns success was not hit by any scheduled fault, i.e. if any fault is hit
@@ -151,3 +151,64 @@ Theorem C18_repair_ok_every_call_fault_free : forall md5 ix dbl fs sched rp st',
   io_n st' = length (io_trace st') /\ forall n, (n < length (io_trace st'))%nat -> sched_lookup sched n = None.
 Proof. exact repair_ok_every_call_fault_free. Qed.
 Print Assumptions C18_repair_ok_every_call_fault_free.
+
+(* THE PAR1 HALVES (Proofs/Par1Faults.v).  A PAR1 Create that reports success was hit by no scheduled fault; whatever the
+   faults it changes only paths it issued write calls for; a path PAR1 Repair lists as repaired had its write completed. *)
+Theorem C18_par1_create_reported : forall md5 parPath files nvol st st',
+  par1_create md5 parPath files nvol st = (Ok tt, st') -> no_fault_between st st'.
+Proof. exact par1_create_ok_no_fault. Qed.
+Print Assumptions C18_par1_create_reported.
+
+Theorem C18_par1_create_untouched : forall md5 parPath files nvol fs sched q,
+  let st' := snd (par1_create md5 parPath files nvol (io_init fs sched)) in
+  ~ In q (written_paths (io_trace st')) -> fs_lookup (io_fs st') q = fs_lookup fs q.
+Proof. exact par1_create_untouched. Qed.
+Print Assumptions C18_par1_create_untouched.
+
+Theorem C18_par1_repaired_completed : forall md5 ix dbl fs sched r rp st',
+  par1_repair md5 ix dbl (io_init fs sched) = ((r, rp), st') ->
+  forall q, In q rp -> exists d, In (EvWrite q d true) (io_trace st').
+Proof. exact par1_repaired_only_completed. Qed.
+Print Assumptions C18_par1_repaired_completed.
+
+(* ... and it HOLDS what that write carried: with distinct target paths Repair writes each path at most once, so under
+   any fault schedule a path listed as repaired has a completed write AND holds the bytes of that write (PAR2, PAR1) *)
+Theorem C18_repaired_content : forall md5 ix dbl fs sched r rp st' ds st1,
+  par2_repair md5 ix dbl (io_init fs sched) = ((r, rp), st') ->
+  load_all md5 ix (io_init fs sched) = (Ok ds, st1) ->
+  NoDup (map (fun info => file_path ix (di_name info)) (d_rec (ds_dec ds))) ->
+  forall q, In q rp -> exists d, In (EvWrite q d true) (io_trace st') /\ fs_lookup (io_fs st') q = Some d.
+Proof. exact par2_repaired_content. Qed.
+Print Assumptions C18_repaired_content.
+
+Theorem C18_par1_repaired_content : forall md5 ix dbl fs sched r rp st' s st1,
+  par1_repair md5 ix dbl (io_init fs sched) = ((r, rp), st') ->
+  p1_load md5 ix (io_init fs sched) = (Ok s, st1) ->
+  NoDup (map (fun e => join2 (dir ix) (e_name e)) (s_saved s)) ->
+  forall q, In q rp -> exists d, In (EvWrite q d true) (io_trace st') /\ fs_lookup (io_fs st') q = Some d.
+Proof. exact par1_repaired_content. Qed.
+Print Assumptions C18_par1_repaired_content.
+
+(* RERUN OF CREATE: after ANY faulted run (any schedule, torn writes included) a fault-free rerun on the state left behind
+   returns what the fault-free run from the original state returns, leaves the same content at EVERY path and makes the same
+   calls - Create never modifies its inputs (C02), and its result depends on nothing else.  PAR1 and PAR2. *)
+Theorem C18_par1_create_rerun : forall md5 parPath files nvol fs sched,
+  let fs1 := io_fs (snd (par1_create md5 parPath files nvol (io_init fs sched))) in
+  let r2 := par1_create md5 parPath files nvol (io_init fs1 []) in
+  let r0 := par1_create md5 parPath files nvol (io_init fs []) in
+  fst r2 = fst r0 /\
+  (forall q, fs_lookup (io_fs (snd r2)) q = fs_lookup (io_fs (snd r0)) q) /\
+  io_trace (snd r2) = io_trace (snd r0).
+Proof. exact par1_create_rerun. Qed.
+Print Assumptions C18_par1_create_rerun.
+
+Theorem C18_create_rerun : forall md5 cwd parPath files p fs sched,
+  is_abs cwd = true ->
+  let fs1 := io_fs (snd (par2_create md5 cwd parPath files p (io_init fs sched))) in
+  let r2 := par2_create md5 cwd parPath files p (io_init fs1 []) in
+  let r0 := par2_create md5 cwd parPath files p (io_init fs []) in
+  fst r2 = fst r0 /\
+  (forall q, fs_lookup (io_fs (snd r2)) q = fs_lookup (io_fs (snd r0)) q) /\
+  io_trace (snd r2) = io_trace (snd r0).
+Proof. exact par2_create_rerun. Qed.
+Print Assumptions C18_create_rerun.
